@@ -261,7 +261,9 @@ def property_failures(impl, schedule, tries, restart):
                 fails.append('request %d retried after shutdown began but was not answered with an error: %s' % (x, st))
             if k == 'ok' and graceful_only and st != ('done', 'ok'):
                 fails.append('request %d finished its diff during a graceful shutdown but did not get the normal response: %s' % (x, st))
-        cur = impl['current']
+        # the live pool as the observer sees it: the most recently created one (not what the application still remembers -
+        # a change that makes the application forget its pool must not blind this check)
+        cur = impl['created'][-1] if impl['created'] else None
         if cur is not None:
             imm = any(x == 1 for k, x in schedule if k == 'shutdown')
             if imm and cur not in impl['killed']:
